@@ -32,17 +32,70 @@ class SymChar:
 
 
 class Num:
-    __slots__ = ("v", "kind")
+    __slots__ = ("v", "kind", "style")
 
-    def __init__(self, v, kind):
+    def __init__(self, v, kind, style=None):
         self.v = v  # SymReal or SymInt (or python number)
         self.kind = kind  # 'float' | 'int'
+        # how the numeral is SPELLED when it has to become concrete text (regular expressions, RDKit, replay files):
+        # None = the way Python prints the number; 'plain' = positional decimal without exponent ('0.00002');
+        # 'sci' = mantissa and signed exponent ('2.5e+04'); 'sci-short' = as users write it ('5e7', '2.5e-3').
+        # Python-level parsing (float(), int()) reads every spelling as the value v.
+        self.style = style
 
     def __deepcopy__(self, memo):
         return self
 
     def __repr__(self):
         return f"Num[{self.kind}]({self.v})"
+
+
+def render_num(num, value):
+    """concrete text of a numeral atom for the concrete value `value`"""
+    if num.kind == "int":
+        return str(int(value))
+    x = float(value)
+    st = getattr(num, "style", None)
+    if st is None:
+        return repr(x)
+    if st == "plain":
+        import numpy as _np
+
+        t = _np.format_float_positional(x, trim="0")
+        return t
+    if st in ("sci", "sci-short"):
+        from decimal import Decimal
+
+        sign, digits, exp = Decimal(repr(x)).as_tuple()
+        digits = list(digits)
+        while len(digits) > 1 and digits[-1] == 0:
+            digits.pop()
+            exp += 1
+        e = exp + len(digits) - 1
+        m = str(digits[0]) + ("." + "".join(map(str, digits[1:])) if len(digits) > 1 else "")
+        sg = "-" if sign else ""
+        if st == "sci":
+            if "." not in m:
+                m += ".0"
+            return f"{sg}{m}e{e:+03d}"
+        return f"{sg}{m}e{e}"
+    raise core.Unsupported(f"numeral style {st}")
+
+
+def model_text(c, mv, s):
+    """concrete text of a (symbolic) text under the model values mv (for replay files)"""
+    if isinstance(s, str):
+        return s
+    out = []
+    for it in s.items:
+        if isinstance(it, str):
+            out.append(it)
+        elif isinstance(it, Num):
+            v = c.eval_in(mv, it.v) if core.is_sym(it.v) else it.v
+            out.append(render_num(it, v))
+        else:
+            out.append(chr(c.eval_in(mv, SymInt(it.e))))
+    return "".join(out)
 
 
 def fresh_char(name, alphabet):
@@ -419,7 +472,7 @@ def _eq_with_numerals(a, b):
                 val = int(span) if x.kind == "int" else float(span)
             except ValueError:
                 return False
-            canon = str(val) if x.kind == "int" else repr(val)
+            canon = render_num(x, val)
             if canon != span:
                 return False
             r = x.v == val
@@ -458,9 +511,161 @@ def concretise(s):
         else:
             v = core.concrete_value(it.v)
             if v is None:
-                raise core.Unsupported("numeral atom reaches a concrete-only boundary")
-            out.append(str(int(v)) if it.kind == "int" else repr(float(v)))
+                v = realise_numeral(it)
+            out.append(render_num(it, v))
     return "".join(out)
+
+
+# format classes of CPython's number printing: repr(float) is plain decimal for 1e-4 <= |x| < 1e16 and uses an exponent
+# outside; str(int) has no classes but its digit count / sign.  A numeral atom that reaches a C-level text function
+# (regular expressions, RDKit) is forked over these classes and pinned to one representative value per class.
+_FLOAT_CLASSES = [
+    ("zero", lambda x: x == 0, [0.0]),
+    ("plain", lambda x: And(abs(x) >= 1e-4, abs(x) < 1e16, x > 0), [1.0, 2.0, 0.5, 3.0, 1.5, 10.0, 50.0, 100.0, 0.25, 1000.0, 12.5]),
+    ("plain-negative", lambda x: And(abs(x) >= 1e-4, abs(x) < 1e16, x < 0), [-1.0, -2.0, -0.5, -10.0, -100.0]),
+    ("small-exponent", lambda x: And(abs(x) < 1e-4, x > 0), [1e-05, 2e-05, 5e-06, 1e-06, 1e-07]),
+    ("small-exponent-negative", lambda x: And(abs(x) < 1e-4, x < 0), [-1e-05, -1e-06]),
+    ("large-exponent", lambda x: x >= 1e16, [1e16, 1e17, 1e20]),
+    ("large-exponent-negative", lambda x: x <= -1e16, [-1e16, -1e20]),
+]
+_INT_CLASSES = [
+    ("zero", lambda n: n == 0, [0]),
+    ("one-digit", lambda n: And(n > 0, n < 10), [1, 2, 5, 9]),
+    ("more-digits", lambda n: n >= 10, [10, 12, 50, 100, 1000]),
+    ("negative", lambda n: n < 0, [-1, -5, -10]),
+]
+
+
+def realise_numeral(num):
+    """numeral atom with a symbolic value -> one concrete value per printing class (forks over the classes)"""
+    c = core.ctx()
+    v = num.v
+    classes = _INT_CLASSES if num.kind == "int" else _FLOAT_CLASSES
+    x = v if num.kind == "int" else core._real(v)
+    conds = [f(x) for _, f, _ in classes]
+    i = c.choose(conds, label="numeral printing class")
+    e = x.e if isinstance(x, SymInt) else x.term()
+    val = c.pin_value(e, classes[i][2], label=classes[i][0])
+    return int(val) if num.kind == "int" else float(val)
+
+
+class ReProxy:
+    """the module `re` as seen by the rewritten package: symbolic text is forced concrete before it reaches the C matcher
+    (symbolic characters fork over their alphabet, numeral atoms over their printing classes)"""
+
+    def __init__(self):
+        import re as _re
+
+        self._re = _re
+
+    def _conc(self, x):
+        return concretise(x) if isinstance(x, SymStr) else x
+
+    def __getattr__(self, name):
+        f = getattr(self._re, name)
+        if not callable(f) or isinstance(f, type):
+            return f
+
+        def call(*a, **k):
+            a = [self._conc(x) for x in a]
+            k = {kk: self._conc(v) for kk, v in k.items()}
+            r = f(*a, **k)
+            if name == "compile":
+                return _PatternProxy(r, self)
+            return r
+
+        return call
+
+
+class _PatternProxy:
+    def __init__(self, pat, owner):
+        self._p, self._o = pat, owner
+
+    def __getattr__(self, name):
+        f = getattr(self._p, name)
+        if not callable(f):
+            return f
+
+        def call(*a, **k):
+            return f(*[self._o._conc(x) for x in a], **{kk: self._o._conc(v) for kk, v in k.items()})
+
+        return call
+
+
+RE = ReProxy()
+
+
+def str_method(name, recv, *args, **kw):
+    """`"lit".join(parts)` / `"lit".format(...)` with symbolic arguments (C-level str methods reject proxies)"""
+    if not isinstance(recv, str):
+        return getattr(recv, name)(*args, **kw)
+    if name == "join":
+        parts = list(args[0])
+        if any(isinstance(p, SymStr) for p in parts):
+            return SymStr(tuple(recv)).join(parts)
+        return recv.join(parts)
+    if name == "format":
+        vals = list(args) + list(kw.values())
+        if not any(core.is_sym(v) or isinstance(v, SymStr) for v in vals):
+            return recv.format(*args, **kw)
+        import string
+
+        parts, auto = [], 0
+        for lit, field, spec, conv in string.Formatter().parse(recv):
+            if lit:
+                parts.append(("s", lit))
+            if field is None:
+                continue
+            if field == "":
+                val = args[auto]
+                auto += 1
+            elif field.isdigit():
+                val = args[int(field)]
+            elif field in kw:
+                val = kw[field]
+            else:
+                raise core.Unsupported(f"format field {field!r} with symbolic arguments")
+            parts.append(("v", val, ord(conv) if conv else -1, spec or None))
+        return fstring(parts)
+    return getattr(recv, name)(*args, **kw)
+
+
+def mod_format(fmt, arg):
+    """`"lit %s" % x` with symbolic arguments"""
+    if not isinstance(fmt, str):
+        return fmt % arg
+    args = arg if isinstance(arg, tuple) else (arg,)
+    if not any(core.is_sym(v) or isinstance(v, SymStr) for v in args):
+        return fmt % arg
+    import re as _re
+
+    parts, k, pos = [], 0, 0
+    for m in _re.finditer(r"%(%|s|r|d|i|g|f|\.\d+[fg])", fmt):
+        if m.start() > pos:
+            parts.append(("s", fmt[pos:m.start()]))
+        pos = m.end()
+        t = m.group(1)
+        if t == "%":
+            parts.append(("s", "%"))
+            continue
+        if k >= len(args):
+            raise core.emulated(TypeError("not enough arguments for format string"))
+        v = args[k]
+        k += 1
+        if t in ("s", "d", "i"):
+            parts.append(("v", v, -1, None))
+        elif t == "r":
+            parts.append(("v", v, ord("r"), None))
+        elif t in ("g", "f"):
+            parts.append(("v", v, -1, ".6" + t))
+        else:
+            parts.append(("v", v, -1, t))
+    if "%" in fmt[pos:]:
+        raise core.Unsupported(f"%-format {fmt!r} with symbolic arguments")
+    parts.append(("s", fmt[pos:]))
+    if k != len(args):
+        raise core.emulated(TypeError("not all arguments converted during string formatting"))
+    return fstring(parts)
 
 
 # ----------------------------------------------------------------------------
